@@ -210,10 +210,7 @@ class Ctx:
                     if tier >= 3:
                         out.append(z3.Implies(de != 0, q * de == nu))
                 elif n in self.absd:
-                    names.append(n)
-                    if tier >= 4:
-                        out.append(self.absd[n][1] == self.absd[n][0])
-                        stack.append(self.absd[n][0])
+                    names.append(n)   # tier 4 unfolds these by substitution (see check)
                 elif n in self.opq:
                     fn, args, v = self.opq[n]
                     for m in names:
@@ -274,8 +271,19 @@ class Ctx:
         last_tier = 0
         nlem_prev = -1
         for tr in range(min_tier, tier + 1):
-            lem = self.lemmas(fs, tr)
-            if tr > min_tier and len(lem) == nlem_prev and res != 'unknown':
+            if tr >= 4:
+                if not self.absd:
+                    continue
+                fs = self.unfold(fs)    # size abstractions are inlined, not added as equations
+                lem = []
+                for _ in range(6):      # lemmas may mention further abstraction symbols: close under unfolding
+                    new = self.unfold(self.lemmas(fs + lem, 3))
+                    if len(new) == len(lem):
+                        break
+                    lem = new
+            else:
+                lem = self.lemmas(fs, tr)
+            if tr > min_tier and tr < 4 and len(lem) == nlem_prev and res != 'unknown':
                 continue  # nothing new at this tier
             nlem_prev = len(lem)
             sv = z3.Solver()
@@ -291,6 +299,17 @@ class Ctx:
         self.tq += time.time() - t0
         self.last_tier = last_tier
         return res
+
+    def unfold(self, fs):
+        """substitute the definitions of the size-triggered abstraction symbols (repeatedly: definitions may nest)"""
+        subs = [(v, t) for (t, v) in self.absd.values()]
+        out = list(fs)
+        for _ in range(50):
+            new = [z3.substitute(f, *subs) for f in out]
+            if all(a.get_id() == b.get_id() for a, b in zip(new, out)):
+                break
+            out = new
+        return out
 
     def model_values(self):
         """Values of the base inputs in the model of the last `sat` query."""
@@ -875,10 +894,40 @@ for _n in FLOAT_IMPL:
     setattr(SV, _n, _mk_method(_n))
 
 
+def _expanded_size(t, cap=3000):
+    """estimate of the number of monomials after expanding products of sums (memoised on the DAG)"""
+    memo = {}
+
+    def est(e):
+        i = e.get_id()
+        if i in memo:
+            return memo[i]
+        k = e.decl().kind() if z3.is_app(e) else None
+        ch = e.children()
+        if not ch:
+            r = 1
+        elif k == z3.Z3_OP_ADD or k == z3.Z3_OP_SUB:
+            r = sum(est(c) for c in ch)
+        elif k == z3.Z3_OP_MUL:
+            r = 1
+            for c in ch:
+                r *= est(c)
+                if r > cap:
+                    break
+        elif k == z3.Z3_OP_UMINUS:
+            r = est(ch[0])
+        else:
+            r = cap + 1 if k in (z3.Z3_OP_ITE,) and False else max(est(c) for c in ch)
+        r = min(r, cap + 1)
+        memo[i] = r
+        return r
+    return est(t)
+
+
 def canon(t):
     """canonical form for memoisation: sum of monomials with sorted sums, so that algebraically equal polynomials built in a
-    different order share their abstraction symbol"""
-    if tsize(t, 4000) > 4000:
+    different order share their abstraction symbol (skipped when the expansion would be large)"""
+    if _expanded_size(t) > 3000:
         return z3.simplify(t)
     return z3.simplify(t, som=True, sort_sums=True)
 
